@@ -57,17 +57,36 @@ pub struct Workspace {
     pub field_facts: HashMap<DeclId, FieldFacts>,
     /// (module, import index) pairs: module i imports module j
     pub import_edges: Vec<(usize, usize)>,
+    /// Some(k): modules 0..k live in local package `lib` (/ws/lib), the others in local
+    /// package `app` (/ws/app) which depends on `lib`. Imports only point to lower-numbered
+    /// modules, so every import stays legal.
+    pub split: Option<usize>,
 }
 
 impl Workspace {
     pub fn path_of(&self, m: usize) -> String {
-        format!("/ws/pkg/src/{}.gleam", self.modules[m].name)
+        match self.split {
+            Some(k) if m < k => format!("/ws/lib/src/{}.gleam", self.modules[m].name),
+            Some(_) => format!("/ws/app/src/{}.gleam", self.modules[m].name),
+            None => format!("/ws/pkg/src/{}.gleam", self.modules[m].name),
+        }
     }
     pub fn files(&self) -> Vec<(String, String)> {
         let mut v: Vec<(String, String)> =
             (0..self.modules.len()).map(|i| (self.path_of(i), self.printed[i].text.clone())).collect();
-        v.push(("/ws/pkg/gleam.toml".into(), "name = \"pkg\"\n".into()));
+        if self.split.is_some() {
+            v.push(("/ws/lib/gleam.toml".into(), "name = \"lib\"\n".into()));
+            v.push(("/ws/app/gleam.toml".into(), "name = \"app\"\n\n[dependencies]\nlib = { path = \"../lib\" }\n".into()));
+        } else {
+            v.push(("/ws/pkg/gleam.toml".into(), "name = \"pkg\"\n".into()));
+        }
         v
+    }
+    /// Put the first k modules into a second local package (1 <= k < modules).
+    pub fn split_packages(&mut self, r: &mut Rng) {
+        if self.modules.len() >= 2 {
+            self.split = Some(r.range(1, self.modules.len() - 1));
+        }
     }
     /// Canonical declaration for goto purposes.
     pub fn canonical(&self, d: DeclId) -> DeclId {
@@ -1516,5 +1535,5 @@ pub fn generate(r: &mut Rng, cfg: &GenCfg) -> Workspace {
             }
         }
     }
-    Workspace { modules, decls, printed, holes, field_facts, import_edges: edges }
+    Workspace { modules, decls, printed, holes, field_facts, import_edges: edges, split: None }
 }
